@@ -30,6 +30,7 @@ import (
 //	R-any-member      an interface{} member of a result is stored as decoded, not narrowed to one Go type
 //	R-fresh-buffer    (shared with C01) a reader loop decodes each message into a buffer of its own
 //	R-error-envelope  no client transport hands the bare content of an "error" member upwards as the raw answer
+//	R-result-untouched the server does not write into the object a registered handler returned
 //	R-unbounded-frames the per-call SSE reader imposes no practical line-length limit
 func init() { Registry["C02"] = checkC02 }
 
@@ -359,6 +360,7 @@ func checkC02(c *Ctx) {
 	c.R.Explanation, c.R.NotDecided, c.R.Assumptions = expl+" The stream-integrity rules of C09 (R-field-writer, R-shared-writer, R-frame-atomic, R-payload) are evaluated as well.", nd, as
 	c01FreshBuffer(c) // a message handed to a caller must not share its buffer with the next one read
 	c02ErrorEnvelope(c)
+	c02ResultUntouched(c)
 
 	// ---- R-unbounded-frames: the reader that returns a call's answer must not impose a line-length limit
 	// (bufio.Scanner stops with ErrTooLong beyond its token limit; a multi-megabyte result is one data line)
@@ -1000,5 +1002,123 @@ func c02ErrorEnvelope(c *Ctx) {
 	c.R.Hold("R-error-envelope", "uses of the \"error\" member on the client side", "", sprintf("%d loads / lookups of an \"error\" member examined; none is handed on as a raw answer", nSrc))
 	if nSrc < 3 {
 		c.R.Break("R-error-envelope: only %d uses of an \"error\" member found on the client side", nSrc)
+	}
+}
+
+// ---------------------------------------------------------------- R-result-untouched
+// "What a handler returns is what the caller receives": between the call of a user handler (a function value the
+// application registered, returning a *…Result) and the encoder, the server does not write into the object the handler
+// returned — no store to one of its members in the calling function, nor in a library function the result is handed to.
+// Adding, replacing or clearing a member there changes the content list / flags the caller decodes.
+func c02ResultUntouched(c *Ctx) {
+	n := 0
+	writesParam := func(f *ssa.Function, idx int) (bool, string) {
+		if f == nil || idx >= len(f.Params) || f.Blocks == nil {
+			return false, ""
+		}
+		p := f.Params[idx]
+		found, member := false, ""
+		ir.EachInstr(f, func(_ *ssa.BasicBlock, _ int, in ssa.Instruction) {
+			st, ok := in.(*ssa.Store)
+			if !ok {
+				return
+			}
+			if fa, ok := st.Addr.(*ssa.FieldAddr); ok && ir.Unwrap(fa.X) == ssa.Value(p) {
+				if fr, _, ok := ir.FieldOf(fa); ok {
+					found, member = true, fr.Name
+				}
+			}
+		})
+		return found, member
+	}
+	for _, fn := range c.P.LibFns {
+		if clientSide(c, fn) {
+			continue
+		}
+		ir.EachInstr(fn, func(_ *ssa.BasicBlock, _ int, in ssa.Instruction) {
+			call, ok := in.(*ssa.Call)
+			if !ok || call.Call.IsInvoke() || ir.StaticCallee(call) != nil {
+				return
+			}
+			if _, isBuiltin := call.Call.Value.(*ssa.Builtin); isBuiltin {
+				return
+			}
+			tup, ok := call.Type().(*types.Tuple)
+			if !ok || tup.Len() != 2 || ir.TypeStr(tup.At(1).Type()) != "error" {
+				return
+			}
+			pt, ok := tup.At(0).Type().(*types.Pointer)
+			if !ok {
+				return
+			}
+			nt, ok := pt.Elem().(*types.Named)
+			if !ok || !ir.InLibrary(nt) || !strings.HasSuffix(nt.Obj().Name(), "Result") {
+				return
+			}
+			var res ssa.Value
+			for _, r := range *call.Referrers() {
+				if ex, ok := r.(*ssa.Extract); ok && ex.Index == 0 {
+					res = ex
+				}
+			}
+			if res == nil {
+				return
+			}
+			n++
+			construct := sprintf("result of the %s handler called in %s", nt.Obj().Name(), fname(fn))
+			bad := ""
+			var follow func(v ssa.Value, d int)
+			seen := map[ssa.Value]bool{}
+			follow = func(v ssa.Value, d int) {
+				if v.Referrers() == nil || d > 4 || seen[v] || bad != "" {
+					return
+				}
+				seen[v] = true
+				for _, r := range *v.Referrers() {
+					switch y := r.(type) {
+					case *ssa.FieldAddr:
+						if y.X != v || y.Referrers() == nil {
+							continue
+						}
+						for _, rr := range *y.Referrers() {
+							if st, ok := rr.(*ssa.Store); ok && st.Addr == ssa.Value(y) {
+								fr, _, _ := ir.FieldOf(y)
+								bad = sprintf("writes its member %s at %s", fr.Name, c.Pos(st.Pos()))
+							}
+						}
+					case *ssa.Phi:
+						follow(y, d+1)
+					case *ssa.Store:
+						// kept in a local variable: follow its loads
+						if al, ok := y.Addr.(*ssa.Alloc); ok && y.Val == v && al.Referrers() != nil {
+							for _, lr := range *al.Referrers() {
+								if u, ok := lr.(*ssa.UnOp); ok && u.Op == token.MUL {
+									follow(u, d+1)
+								}
+							}
+						}
+					case *ssa.Call:
+						sc := ir.StaticCallee(y)
+						if sc == nil || !c.P.IsLib(sc) {
+							continue
+						}
+						for i, a := range y.Call.Args {
+							if a == v {
+								if w, m := writesParam(sc, i); w {
+									bad = sprintf("hands it to %s, which writes its member %s", fname(sc), m)
+								}
+							}
+						}
+					}
+				}
+			}
+			follow(res, 0)
+			c.R.Check(bad == "", "R-result-untouched", construct, c.Pos(call.Pos()), "the object the handler returned is not written to before it is encoded",
+				sprintf("%s calls a registered handler and then %s: what goes to the encoder is not what the handler returned (an item added, a flag changed), so the caller does not receive the handler's result", fname(fn), bad))
+		})
+	}
+	c.R.Min("R-result-untouched", 3)
+	if n == 0 {
+		c.R.Break("R-result-untouched: no call of a registered handler returning a *…Result found")
 	}
 }
